@@ -161,8 +161,12 @@ func (v *Validator) ValidateMap(claims ClaimsMap) error {
 	return nil
 }
 
+// maxUnixSeconds is the largest Unix time in seconds that time.Time can represent:
+// time.Unix adds 62135596800 (seconds from year 1 to 1970) and would wrap around beyond it.
+const maxUnixSeconds = math.MaxInt64 - 62135596800
+
 func toTime(u uint64) time.Time {
-	if u >= math.MaxInt64 {
+	if u > maxUnixSeconds {
 		return time.Time{}
 	}
 
